@@ -18,6 +18,7 @@ class Walk:
         self.infeasible_states = 0
         self.offered = []           # (decisions, choice id, [option names], confirmed names) at feasible states
         self.max_parallel = 0
+        self.intermediate_differs = 0
 
 
 def state_ident(b, g):
@@ -76,10 +77,19 @@ def walk(spec, max_states=3000, record_offered=False, expand_infeasible=False):
             continue
         if decisions in visited:
             w.revisits += 1
-            if visited[decisions] != sid:
-                w.order_conflicts.append((sorted(decisions), visited[decisions], sid))
-            continue
-        visited[decisions] = sid
+            if sid in visited[decisions]:
+                continue
+            # same explicit decisions, other intermediate state (e.g. a forced choice already resolved in one order and
+            # still pending in the other): not a violation by itself - the statement speaks about END results - but both
+            # variants are explored; final states with equal decisions must be equal
+            nxt_pending = len(sid[3]) > 0 or any(len(o[3]) > 0 for o in visited[decisions])
+            if not nxt_pending:
+                w.order_conflicts.append((sorted(decisions), visited[decisions][0], sid))
+                continue
+            w.intermediate_differs += 1
+            visited[decisions].append(sid)
+        else:
+            visited[decisions] = [sid]
         w.states += 1
         if w.states > max_states:
             w.truncated = True
